@@ -518,3 +518,151 @@ func genC21(g *Gen) {
 		g.Emit(fmt.Sprintf("candle %s %s %s %d %s", mode, hx([]byte(tf)), ztok, nsums, showAggRows(candle, chunks)), tags...)
 	}
 }
+
+// ---- C22: fine candles re-aggregated by the CandleCandler vs. the TickCandler at the coarse timeframe
+
+func showOHLC(out []aggCandle) string {
+	parts := make([]string, len(out))
+	for i, c := range out {
+		parts[i] = fmt.Sprintf("%d,%d,%d,%d,%d", c.epoch, math.Float32bits(c.o), math.Float32bits(c.h), math.Float32bits(c.l), math.Float32bits(c.c))
+	}
+	return strings.Join(parts, ";")
+}
+
+func init() {
+	// compose <hex fine tf> <hex coarse tf> <zone> <tick rows>
+	ops["compose"] = func(a []string) string {
+		tff, tfc := hexStr(a[0]), hexStr(a[1])
+		loc := zoneLoc(a[2])
+		chunks := parseAggRows(false, a[3])
+		return withZone(loc, func() string {
+			if _, err := utils.CandleDurationFromString(tff); err != nil {
+				return "err:init"
+			}
+			if _, err := utils.CandleDurationFromString(tfc); err != nil {
+				return "err:init"
+			}
+			fine, e := runCandler(false, tff, 0, chunks)
+			if e != "" {
+				return e
+			}
+			// what a client would feed back: the output rows (Epoch seconds, Open, High, Low, Close)
+			rows := make([]aggRow, len(fine))
+			for i, c := range fine {
+				rows[i] = aggRow{sec: c.epoch, o: c.o, h: c.h, l: c.l, c: c.c}
+			}
+			co, e := runCandler(true, tfc, 0, [][]aggRow{rows})
+			if e != "" {
+				return e
+			}
+			di, e := runCandler(false, tfc, 0, chunks)
+			if e != "" {
+				return e
+			}
+			fW := len(co) == len(di)
+			n := len(co)
+			if len(di) < n {
+				n = len(di)
+			}
+			fO, fC, fH, fL := true, true, true, true
+			for i := 0; i < n; i++ {
+				fW = fW && co[i].epoch == di[i].epoch
+				fO = fO && math.Float32bits(co[i].o) == math.Float32bits(di[i].o)
+				fC = fC && math.Float32bits(co[i].c) == math.Float32bits(di[i].c)
+				fH = fH && co[i].h == di[i].h
+				fL = fL && co[i].l == di[i].l
+			}
+			return showOHLC(co) + " | " + showOHLC(di) + " P=" + b2s(fW) + b2s(fO) + b2s(fC) + b2s(fH) + b2s(fL)
+		})
+	}
+	gens["C22"] = genC22
+}
+
+func genC22(g *Gen) {
+	all := []string{"1Sec", "10Sec", "30Sec", "1Min", "5Min", "15Min", "30Min", "1H", "2H", "4H", "1D",
+		"1W", "1M", "1Y", "2Sec", "7Sec", "90Sec", "3Min", "45Min", "3H", "6H", "12H", "36H", "2D", "2W", "3M", "0Min"}
+	durOf := func(s string) (time.Duration, string) {
+		cd, _ := utils.CandleDurationFromString(s)
+		suf := s[len(s)-1:]
+		if suf == "D" {
+			return 24 * time.Hour, "D"
+		}
+		return cd.Duration(), suf
+	}
+	var dividing, other [][2]string
+	for _, f := range all {
+		for _, c := range all {
+			df, sf := durOf(f)
+			dc, sc := durOf(c)
+			ok := false
+			switch {
+			case sf == "M":
+				ok = false
+			case sc == "M":
+				ok = df > 0 && (24*time.Hour)%df == 0
+			default:
+				ok = df > 0 && dc > 0 && dc%df == 0
+			}
+			if ok {
+				dividing = append(dividing, [2]string{f, c})
+			} else {
+				other = append(other, [2]string{f, c})
+			}
+		}
+	}
+	zones := []string{"Asia/Kolkata", "America/New_York", "Australia/Lord_Howe"}
+	n := g.N(1200, 25000)
+	for i := 0; i < n; i++ {
+		tags := []string{}
+		var pr [2]string
+		if g.Intn(6) == 0 {
+			pr = other[g.Intn(len(other))]
+			tags = append(tags, "pair:not_dividing(correspondence only)")
+		} else {
+			pr = dividing[g.Intn(len(dividing))]
+			tags = append(tags, "pair:dividing")
+		}
+		tags = append(tags, "fine:"+pr[0], "coarse:"+pr[1])
+		zn := "UTC"
+		if g.Intn(8) == 0 && !strings.HasSuffix(pr[0], "Y") && !strings.HasSuffix(pr[1], "Y") {
+			zn = zones[g.Intn(len(zones))]
+			tags = append(tags, "zone:non_utc(correspondence only)")
+		} else {
+			tags = append(tags, "zone:UTC")
+		}
+		loc, err := time.LoadLocation(zn)
+		must(err)
+		nan := g.Intn(15) == 0
+		if nan {
+			tags = append(tags, "prices:with_nan(correspondence only)")
+		}
+		// rows are spread over a few COARSE windows so that several fine candles fall into each
+		cdC, _ := utils.CandleDurationFromString(pr[1])
+		cdF, _ := utils.CandleDurationFromString(pr[0])
+		base := aggBase(g, loc)
+		cnt := []int{1, 2, 3, 5, 8, 13, 30, 60}[g.Intn(8)]
+		var rows []aggRow
+		if g.Intn(2) == 0 {
+			rows = genAggRows(g, cdC, base, cnt, false, nan, 0, &tags)
+		} else {
+			rows = genAggRows(g, cdF, base, cnt, false, nan, 0, &tags)
+		}
+		tags = append(tags, fmt.Sprintf("rows:%d", cnt))
+		lo, hi := rows[0].sec, rows[0].sec
+		for _, r := range rows {
+			if r.sec < lo {
+				lo = r.sec
+			}
+			if r.sec > hi {
+				hi = r.sec
+			}
+		}
+		ztok := "UTC|0"
+		if zn != "UTC" {
+			ztok = zoneToken(zn, lo-800*86400, hi+800*86400)
+		}
+		g.Emit(fmt.Sprintf("compose %s %s %s %s", hx([]byte(pr[0])), hx([]byte(pr[1])), ztok, showAggRows(false, [][]aggRow{rows})), tags...)
+	}
+	g.Emit("compose 314d696e 3148 UTC|0 -", "empty")
+	g.Emit("compose 3153 3148 UTC|0 1,0,0", "invalid_tf")
+}
